@@ -118,4 +118,20 @@ def _listify(ctx):
         ex, obs = add_to_ctx(ctx, L.listify_contract(), {})
     finally:
         P.Prims.register_defaults = orig
-    return f" listify_groups: {len(obs)} obligations (the labels a block found are handed on as NumPy scalars of the labels' own dtype, one per label, in order)."
+    from ..contracts import findgroups as FG
+
+    def reg2(self):
+        orig(self)
+        FG.register_models(self)
+
+    P.Prims.register_defaults = reg2
+    try:
+        c2, callees2 = FG.find_unique_groups_contract()
+        ex2, obs2 = add_to_ctx(ctx, c2, callees2)
+    finally:
+        P.Prims.register_defaults = orig
+    from ..pyvc import conformance
+
+    conformance.add_to_ctx(ctx, ["_unique"])
+    return (f" listify_groups: {len(obs)} obligations (the labels a block found are handed on as NumPy scalars of the labels' own dtype, one per label, in order); _find_unique_groups: {len(obs2)} obligations "
+            "(the labels of a combine step are exactly the non-missing labels its blocks found, each once, ascending, or the placeholder NaN).")
